@@ -51,7 +51,7 @@ PROPS["C04"] = {
           budget=(900, 3000)),
     ],
     "panic_ok": ["h_c04_step"],
-    "bounds": {"quick": "7 start forests (5-8 nodes, all text-like contents symbolic), 1 call drawn from 30 operations with "
+    "bounds": {"quick": "7 start forests (5-8 nodes, all text-like contents symbolic), 1 call drawn from 34 operations with "
                         "every tuple of live nodes as arguments",
                "thorough": "same forests, every sequence of 2 calls"},
     "outside": "histories longer than 2 calls; forests other than the catalogue; parsing as a history step",
@@ -65,7 +65,7 @@ PROPS["C06"] = {
     "claim": "no panic edge is feasible in a manipulation call on live nodes, and on every path that returns Err the "
              "complete read-back (structure, values, liveness of every handle) is unchanged",
     "harnesses": [H("h_c06_step", shards={"quick": C06_SHARDS, "thorough": C06_SHARDS}, budget=(900, 3000))],
-    "bounds": {"quick": "7 start forests (5-8 nodes, symbolic contents), 1 call of 22 operations x every tuple of live nodes "
+    "bounds": {"quick": "7 start forests (5-8 nodes, symbolic contents), 1 call of 26 operations x every tuple of live nodes "
                         "of every kind", "thorough": "same"},
     "outside": "forests other than the catalogue; element-only accessors on non-elements (documented panics)",
     "assumptions": [],
@@ -199,13 +199,16 @@ PROPS["C18"] = {
 PROPS["C12"] = {
     "claim": "clone_node gives an unattached copy made of new nodes, equal to the source incl. declarations and attribute "
              "order, leaves the source unchanged, and the two sides are independent under later mutation; clone_with_prefixes "
-             "adds only in-scope bindings and the clone serialises whenever the source did",
+             "adds only in-scope bindings and the clone serialises whenever the source did; Xot::clone gives a store in which "
+             "every handle and id denotes an equal node / name and which is independent under later mutation of either store",
     "harnesses": [H("h_c12_clone", shards={"quick": shard_product(("shape", 9), ("consolidate", 2)), "thorough": shard_product(("shape", 9), ("consolidate", 2))}),
-                  H("h_c12_clone_with_prefixes", shards={"quick": shard_choose("c0", 8), "thorough": shard_choose("c0", 8)})],
+                  H("h_c12_clone_with_prefixes", shards={"quick": shard_choose("c0", 8), "thorough": shard_choose("c0", 8)}),
+                  H("h_c12_xot_clone", shards={"quick": shard_choose("shape", 7), "thorough": shard_choose("shape", 7)})],
     "bounds": {"quick": "9 kinds of source node in an 11-node document (symbolic contents, adjacent text when consolidation was off), "
                         "consolidation on/off at clone time, one later mutation (3 kinds) of any node of either side; 8x8 declaration "
-                        "layouts x 3x3 element namespaces x 2 attribute namespaces for clone_with_prefixes", "thorough": "same"},
-    "outside": "Xot::clone (derive-generated Clone of Vec/HashMap: std code, summarised containers); longer mutation histories",
+                        "layouts x 3x3 element namespaces x 2 attribute namespaces for clone_with_prefixes; Xot::clone of the 7 start "
+                        "forests followed by one mutation (3 kinds) of any node in either store", "thorough": "same"},
+    "outside": "longer mutation histories; hashing inside the cloned id tables (HashMap is summarised)",
     "assumptions": [],
 }
 
@@ -226,9 +229,10 @@ PROPS["C08"] = {
         H("h_c08_index_round_trip"),
         H("h_c08_interning", {"LEN": 2}, {"LEN": 3}, shards={"quick": shard_product(("table", 3), ("l1", 2)), "thorough": shard_product(("table", 3), ("l1", 3))}),
         H("h_c08_builtins_and_parse"),
+        H("h_c08_html5"),
     ],
     "bounds": {"quick": "index lemma: all 2^64 indices per id type; interning: 3 registrations of arbitrary strings of <=1 char (thorough <=2) "
-                        "per table; built-in ids; one parsed document with a symbolic letter as prefix / attribute / PI target",
+                        "per table; built-in ids; one parsed document with a symbolic letter as prefix / attribute / PI target; ids of 6 concrete names x 3 namespaces across two html5() calls",
                "thorough": "same"},
     "outside": "tables with more than 3 user registrations as symbolic pre-state (the index lemma carries the size dimension); "
                "hashing (HashMap is summarised as a correct map)",
@@ -304,14 +308,14 @@ PROPS["C19"] = {
           shards={"quick": shard_product(("nm", 16), ("nk", 3)), "thorough": shard_product(("nm", 16), ("nk", 3), ("ind", 3))}),
         H("h_c19_attrs", {"SYMA": 2, "SYMA2": 1}, {"SYMA": 3, "SYMA2": 2},
           shards={"quick": shard_product(("nk", 2), ("extra", 4), ("el", 2)), "thorough": shard_product(("nk", 2), ("extra", 4), ("el", 2), ("ind", 2))}),
-        H("h_c19_embedded", shards={"quick": shard_product(("shape", 4), ("top", 3)), "thorough": shard_product(("shape", 4), ("top", 3))}),
+        H("h_c19_embedded", shards={"quick": shard_product(("shape", 6), ("top", 3)), "thorough": shard_product(("shape", 6), ("top", 3))}),
         H("h_c19_loose", {"SYMT": 2}, {"SYMT": 3}, shards={"quick": shard_choose("what", 7), "thorough": shard_choose("what", 7)}),
         H("h_c19_pi", {"PILEN": 3}, {"PILEN": 4}, shards={"quick": shard_choose("where", 3), "thorough": shard_product(("where", 3), ("len", 4))}),
     ],
     "bounds": {"quick": "16 element names (void / phrasing / formatted / raw-text / unknown, lower, upper and mixed case) x no namespace, "
                         "XHTML default, XHTML prefixed, holding one symbolic char of text, with / without CDATA request, 3 indentation "
                         "settings, document and element as the serialised node; attribute values of 2 symbolic chars (1 + 1 with a namespaced "
-                        "attribute), boolean candidates; 4 MathML / SVG shapes x 3 serialised nodes; text under a document and 6 kinds of "
+                        "attribute), boolean candidates; 6 MathML / SVG / foreign-namespace shapes x 3 serialised nodes; text under a document and 6 kinds of "
                         "single node with 2 symbolic chars; processing instruction data of <= 2 symbolic chars at 3 positions",
                "thorough": "text 2, attribute 3, loose text 3, PI data <= 3 symbolic chars"},
     "outside": "longer contents; other tree shapes; normalizers; names outside the 16; the matcher is silent about which namespace "
